@@ -588,16 +588,31 @@ func (ex *Exec) mergeStates(edges []inEdge) State {
 			out[k] = first
 			continue
 		}
-		acc := Term{}
-		for i := len(edges) - 1; i >= 0; i-- {
+		// Exactly one incoming edge is taken, so the most frequent value can serve
+		// as the default and only the edges that differ need an ite.
+		freq := map[string]int{}
+		best := ""
+		for i := range edges {
 			if vals[i].S == "" {
 				continue
 			}
-			if acc.S == "" {
-				acc = vals[i]
-			} else {
-				acc = ite(edges[i].cond, vals[i], acc)
+			freq[vals[i].S]++
+			if best == "" || freq[vals[i].S] > freq[best] {
+				best = vals[i].S
 			}
+		}
+		acc := Term{}
+		for i := range edges {
+			if vals[i].S == best {
+				acc = vals[i]
+				break
+			}
+		}
+		for i := len(edges) - 1; i >= 0; i-- {
+			if vals[i].S == "" || vals[i].S == best {
+				continue
+			}
+			acc = ite(edges[i].cond, vals[i], acc)
 		}
 		out[k] = ex.vc.def("M_"+shortKey(k), acc)
 	}
